@@ -368,6 +368,8 @@ static inline uring_index uring_fifo_pop(struct uring *uring,
         } else {
             /* multiple elements FIFO */
             uring_fifo_val new_fifo = old_fifo;
+            /* head index and head tag, as they were when prev was computed */
+            uring_fifo_val head_desc = old_fifo & UINT16_MAX;
             uring_index prev = uring_fifo_find(uring, tail, head);
             if (prev == URING_INDEX_NULL) {
                 /* The search failed: the FIFO was modified by another
@@ -385,7 +387,7 @@ static inline uring_index uring_fifo_pop(struct uring *uring,
                 new_fifo = old_fifo;
                 /* Check if only the tail was changed (and then try again),
                  * or if we need to restart everything. */
-                if (unlikely(head != uring_fifo_get_head(uring, old_fifo)))
+                if (unlikely((old_fifo & UINT16_MAX) != head_desc))
                     break;
             }
         }
